@@ -2,8 +2,10 @@ package c19
 
 // Numerical machinery of the C19 oracle: lobe-aligned frames, a warped polar
 // coordinate that flattens the reference lobe, adaptive Gauss-Legendre cell
-// integration with an error bound, and the statistics (chi-square with a
-// Wilson-Hilferty tail, Chernoff bounds for binomial counts).
+// integration that is split exactly along the known loci of non-smoothness
+// (lobe equators, cone rims) with an error estimate, and the statistics
+// (chi-square with a Wilson-Hilferty tail, Chernoff bounds for binomial counts).
+// selftest_test.go calibrates all of it against closed forms.
 //
 // Nothing here calls the library; the integrand is a black-box function.
 
